@@ -259,3 +259,66 @@ func runLexerNewlineTracked(c *Ctx) {
 	})
 	_ = strings.Contains
 }
+
+// lexer/source-identity (C04): offsets, lines and columns are counted on the
+// text the lexer holds; the parser, the diagnostics and Colorize index the
+// text the CALLER holds with them. The two must be the same string: a
+// constructor that stores a transformed copy (a stripped prefix, normalised
+// line ends) shifts every span against the bytes it was lexed from.
+func init() {
+	register(&Rule{
+		ID:    "lexer/source-identity",
+		Text:  "every value stored into the `source` field of a lexer (Elk and regex lexers; composite literals and assignments) is a parameter of the enclosing function, unmodified",
+		Floor: 2,
+		Run:   runLexerSourceIdentity,
+	})
+}
+
+func runLexerSourceIdentity(c *Ctx) {
+	for _, rel := range []string{"lexer", "regex/lexer"} {
+		p := c.ByRel[rel]
+		if p == nil {
+			continue
+		}
+		info := p.TypesInfo
+		c.Funcs(rel, func(fr *FuncRef) {
+			params := map[types.Object]bool{}
+			if fr.Decl.Type.Params != nil {
+				for _, f := range fr.Decl.Type.Params.List {
+					for _, n := range f.Names {
+						params[info.Defs[n]] = true
+					}
+				}
+			}
+			n := 0
+			check := func(val ast.Expr, pos token.Pos) {
+				n++
+				key := rel + "." + FuncName(fr.Decl) + "/source#" + itoa(n)
+				id, ok := ast.Unparen(val).(*ast.Ident)
+				c.Check(ok && params[info.Uses[id]], key, pos, "%s.%s stores `%s` as the lexer's source: positions are counted on that text but used to index the caller's text, so unless the two are the same string every span is displaced", rel, FuncName(fr.Decl), types.ExprString(val))
+			}
+			ast.Inspect(fr.Decl.Body, func(nd ast.Node) bool {
+				switch x := nd.(type) {
+				case *ast.CompositeLit:
+					if NamedOf(info.TypeOf(x)) != rel+".Lexer" {
+						return true
+					}
+					for _, el := range x.Elts {
+						if kv, ok := el.(*ast.KeyValueExpr); ok {
+							if k, ok := kv.Key.(*ast.Ident); ok && k.Name == "source" {
+								check(kv.Value, kv.Pos())
+							}
+						}
+					}
+				case *ast.AssignStmt:
+					for i, l := range x.Lhs {
+						if sel, ok := ast.Unparen(l).(*ast.SelectorExpr); ok && sel.Sel.Name == "source" && NamedOf(info.TypeOf(sel.X)) == rel+".Lexer" && i < len(x.Rhs) {
+							check(x.Rhs[i], x.Pos())
+						}
+					}
+				}
+				return true
+			})
+		})
+	}
+}
